@@ -18,7 +18,7 @@ type sreplay struct {
 func TestStress(t *testing.T) {
 	r := mon.New("C11")
 	defer r.Flush()
-	n := r.Pick(1000, 20000)
+	n := r.Pick(1000, 100000)
 	for i := 0; i < n; i++ {
 		if !r.Mine(i) {
 			continue
